@@ -148,6 +148,25 @@ def check_locations(ctx, name):
         ctx.violation('relocated copy loads different contents / fails',
                       case, {'by_name': da, 'relocated': dc})
         return
+    # the scheme alone, loaded by name: here, by path, and relocated
+    from pgradd.GroupAdd.Scheme import GroupAdditivityScheme
+    s1 = observe(GroupAdditivityScheme.Load, name)
+    s2 = observe(GroupAdditivityScheme.Load,
+                 os.path.join(libs.data_dir(), name, 'scheme.yaml'))
+    ctx.evals(2)
+    if 'exc' in s1 or 'exc' in s2:
+        ctx.violation('scheme does not load by name / by path (%s)' % (
+            s1.get('exc') or s2.get('exc')), case, {})
+        return
+    sd = [digests.digest_of(digests.scheme_state(x['ok'])) for x in (s1, s2)]
+    sd.append(digests.digest_of(digests.scheme_state(a['ok'].scheme)))
+    sd.append(rep.get('scheme_digests', {}).get(name))
+    if len(set(sd)) != 1:
+        ctx.violation('scheme contents differ between loading routes', case,
+                      {'by_name': sd[0], 'by_path': sd[1],
+                       'of_library': sd[2], 'relocated_by_name': sd[3]})
+        return
+    ctx.count('scheme_loading_routes_compared')
     pkg = os.path.realpath(libs.data_dir())
     inside = [f for f in rep['opened']
               if os.path.realpath(f).startswith(pkg + os.sep)]
